@@ -1,5 +1,5 @@
 """Registry: property id -> rule set, level and explanations."""
-from . import p_symbols, p_rs, p_charset
+from . import p_symbols, p_rs, p_charset, p_modes
 
 PROPS = {}
 
@@ -58,6 +58,20 @@ PROPS["C14"] = {
                    "the string round trip itself (first sentence) - it depends on the data round trip (C01) whose core is not static.",
     "assumptions": ["default cargo features"],
     "technique": "decision-table extraction from THIR + call-structure rules",
+}
+
+PROPS["C13"] = {
+    "level": "proof",
+    "rules": [p_modes.dom_mode, p_modes.fld_enc, p_modes.latch_use],
+    "explanation": "A latch for mode V is emitted only through latch_from_ascii(V) of a mode taken from the plan (FLD-ENC, LATCH-USE); "
+                   "the plan names V only if a plan object for V was constructed, and every construction of PlanImpl::V / switch entry "
+                   "(.., V) in add_switches is dominated by the true edge of enabled_modes.contains(V) with the same V, the start plan "
+                   "by enabled_modes.contains(mode) (DOM-MODE, MIR dominance on the edge-removed CFG). The ASCII end-of-data fallback "
+                   "(set_ascii_until_end / add_padding set the constant Ascii and emit no latch) is the property's stated exception.",
+    "trusted_base": ["rustc MIR construction (mir-opt-level=0)", "flagset::FlagSet::contains semantics", "rules/mirlib.py dominance by edge removal",
+                     "mode encoders push only computed data codewords, UNLATCH and shift values (no latch constants: LATCH-USE)"],
+    "assumptions": ["default cargo features"],
+    "technique": "MIR dominance (must-pass-through edge) + crate-wide field-writer enumeration + constant-use census",
 }
 
 NOT_APPLICABLE = {
